@@ -229,3 +229,98 @@ func (w *driveWorld) observeSparse() {
 	}
 	w.flush()
 }
+
+// runLightChain (driver option big=3): scripted histories for a light client that holds
+// dozens of leaves in a forest whose low trees are emptied and then overwritten in a
+// chain by the next additions (several empty roots destroyed by one block), followed by
+// Undo and another block.  Every observation is judged by TLC (CoreTrace: roots, what the
+// client holds and its proof).
+func (w *driveWorld) runLightChain(maxN int) {
+	p := utreexo.NewAccumulator()
+	w.insts = []*Inst{
+		{Name: "pollard", Kind: KPollard, P: &p},
+		{Name: "map.full.63", Kind: KMapFull, Rows: 63, M: newMap(true, 63)},
+	}
+	w.lcBroken = false
+	w.remHigh = true
+	w.emit(newEv("reset", w.h, w.i))
+	w.flush()
+	// leaf count: one big tree and three or four low trees
+	a := 6 + w.rng.Intn(2)
+	n0 := 1<<a + 1
+	var lows []int
+	for h := a - 1; h >= 1; h-- {
+		if len(lows) < 3 && (w.rng.Intn(2) == 0 || h <= 2) {
+			lows = append(lows, h)
+			n0 += 1 << h
+		}
+	}
+	step := func(d []int, k int) bool {
+		w.script = &scriptedBlock{d: d, k: k, lcRem: func(s int) bool { return s == 0 || s == n0-1 || s == 1<<a }}
+		w.block(maxN + 64)
+		w.script = nil
+		if len(w.fails) > 0 {
+			return false
+		}
+		w.observe()
+		w.holdEvent()
+		w.flush()
+		return len(w.fails) == 0
+	}
+	pan := protect(func() {
+		if !step(nil, n0) {
+			return
+		}
+		// some leaves of the big tree go: their neighbours move up (held positions on higher rows)
+		var d []int
+		for s := 0; s < 1<<a; s++ {
+			if w.rng.Intn(9) == 0 || (s > 0 && s < 4) {
+				d = append(d, s)
+			}
+		}
+		// (in every other history these deletions are part of the next block instead)
+		var together []int
+		if w.h%2 == 0 {
+			together = d
+		} else if !step(d, 0) {
+			return
+		}
+		// every leaf of the low trees except the last one-leaf tree goes, one or two leaves are added:
+		// the additions run over a chain of empty roots
+		d = append([]int{}, together...)
+		for s := 1 << a; s < n0-1; s++ {
+			d = append(d, s)
+		}
+		if !step(d, 1+w.rng.Intn(2)) {
+			return
+		}
+		w.undo()
+		if len(w.fails) > 0 {
+			return
+		}
+		w.observe()
+		w.holdEvent()
+		w.flush()
+		if len(w.fails) > 0 {
+			return
+		}
+		// the same deletions with other additions, then an ordinary block and its undo
+		if !step(d, 3+w.rng.Intn(3)) {
+			return
+		}
+		if !step(w.chooseDeletions(), w.rng.Intn(6)) {
+			return
+		}
+		w.undo()
+		if len(w.fails) > 0 {
+			return
+		}
+		w.observe()
+		w.holdEvent()
+		w.flush()
+	})
+	if pan != "" {
+		w.fail([]string{"C01"}, "", "panic", "the library panicked: "+pan)
+	}
+	w.flush()
+}
